@@ -213,8 +213,8 @@ class Model(object):
         return best
 
     def snapshot(self, probes):
-        snap = {'categories': self.names(), 'frozen': self.frozen,
-                'lookup': {}, 'iter': {}, 'iter_all': {}, 'specials': {}}
+        snap = {'categories': self.names(), 'frozen': self.frozen, 'categories_is_a_copy': True,
+                'lookup': {}, 'iter': {}, 'iter_all': {}, 'iter_rev': {}, 'specials': {}}
         for kind in KINDS:
             lk = {}
             for name in NAMES[kind] + [UNKNOWN_NAME[kind]]:
@@ -228,6 +228,8 @@ class Model(object):
                                   for c, d in self.cats}
             snap['iter_all'][kind] = [sorted(tag_of(s) for s in d[kind].values())
                                       for c, d in self.cats]
+            snap['iter_rev'][kind] = [sorted(tag_of(s) for s in d[kind].values())
+                                      for c, d in reversed(self.cats)]
         for p in probes:
             snap['specials'][p] = [tag_of(self.test_for_specials(p, i))
                                    for i in range(len(p) + 1)]
@@ -248,8 +250,13 @@ def snapshot(db, probes):
         cats = list(db.categories())
     except Exception as e:
         return {'categories': 'EXC:' + type(e).__name__}
+    # the reported list is the caller's: changing it must not change the database
+    scratch = db.categories()
+    scratch.reverse()
+    scratch.append('zz-scratch')
     snap = {'categories': list(cats), 'frozen': bool(db.frozen),
-            'lookup': {}, 'iter': {}, 'iter_all': {}, 'specials': {}}
+            'categories_is_a_copy': list(db.categories()) == list(cats),
+            'lookup': {}, 'iter': {}, 'iter_all': {}, 'iter_rev': {}, 'specials': {}}
     getters = {'macros': db.get_macro_spec, 'environments': db.get_environment_spec,
                'specials': db.get_specials_spec}
     iters = {'macros': db.iter_macro_specs, 'environments': db.iter_environment_specs,
@@ -286,6 +293,16 @@ def snapshot(db, probes):
         if i != len(allspecs):
             chunks.append(['<extra>'] + allspecs[i:])
         snap['iter_all'][kind] = chunks
+        # several categories in an order chosen by the caller: concatenation in that order
+        revspecs = listing(kind, categories=list(reversed(cats)))
+        chunks, i = [], 0
+        for c in reversed(cats):
+            n = len(snap['iter'][kind][c])
+            chunks.append(sorted(revspecs[i:i + n]))
+            i += n
+        if i != len(revspecs):
+            chunks.append(['<extra>'] + revspecs[i:])
+        snap['iter_rev'][kind] = chunks
     for p in probes:
         row = []
         for i in range(len(p) + 1):
